@@ -553,7 +553,7 @@ func calibrate(run *lib.Run, c *config) bool {
 }
 
 func main() {
-	run := lib.Start("C01", "generated HTTP/1 requests (method, origin/absolute form, pchar paths and queries, 0-10 extra fields with repeats and case variants, Connection-nominated names in 1-2 lines, pre-existing Via/X-Forwarded-* in 1-2 lines, Accept-Encoding/User-Agent present or absent, hop-by-hop fields, none/CL/chunked bodies with sizes across 4 KiB and 32 KiB boundaries, PRNG write segmentation, pipelined pairs, HTTP/1.0 or Connection: close on the last request) on keep-alive connections through direct / upstream-proxy / MITM configurations; next hop bytes parsed independently and compared with a reference transformation; distinct = (config, method, form, framing, size class, position, pipelined, proto, special-field multiplicities)")
+	run := lib.Start("C01", "generated HTTP/1 requests (method, origin/absolute form, pchar paths and queries, 0-10 extra fields with repeats and case variants, Connection-nominated names in 1-2 lines, pre-existing Via/X-Forwarded-* in 1-2 lines, Accept-Encoding/User-Agent present or absent, hop-by-hop fields, none/CL/chunked bodies with sizes across 4 KiB and 32 KiB boundaries, PRNG write segmentation, pipelined pairs, Expect: 100-continue on some body-bearing requests, HTTP/1.0 or Connection: close on the last request) on keep-alive connections through direct / upstream-proxy / MITM configurations (two thirds of the MITM CONNECTs carry a Content-Length of 11 or 0); next hop bytes parsed independently and compared with a reference transformation; distinct = (config, method, form, framing, size class, position, pipelined, proto, special-field multiplicities)")
 	root := run.RNG()
 	nConns := run.N(300, 3000)
 	maxBody := 200 << 10
